@@ -1,5 +1,5 @@
 """Shared machinery of bin/check: work directories, harness build, TLC invocations, verdicts, evidence."""
-import json, os, re, shutil, subprocess, sys, time, glob
+import json, os, re, shutil, subprocess, sys, time, glob, tempfile
 
 ROOT = os.path.dirname(os.path.dirname(os.path.abspath(__file__)))
 SPEC = os.path.join(ROOT, "spec")
@@ -114,8 +114,7 @@ class Run:
         with open(outp, "w") as of:
             # deep recursion over long argument lists (multi-transfers of 257 tokens) needs a larger thread stack
             # (java.io.tmpdir: SANY unpacks the standard modules into a temporary directory per run; keep it inside the work directory)
-            jt = os.path.join(d, "jtmp")
-            os.makedirs(jt, exist_ok=True)
+            jt = tempfile.mkdtemp(prefix="jtmp-", dir=d)     # (one per invocation: several TLC runs may share d)
             env = dict(os.environ, JAVA_TOOL_OPTIONS=(os.environ.get("JAVA_TOOL_OPTIONS", "") + " -Xss256m -Djava.io.tmpdir=" + jt).strip())
             p = subprocess.Popen(cmd, cwd=d, stdout=of, stderr=subprocess.STDOUT, env=env)
             try:
@@ -125,7 +124,7 @@ class Run:
                 subprocess.run(["pkill", "-f", md])
                 raise Infra("TLC timed out after %ds: %s" % (timeout, " ".join(cmd)))
         shutil.rmtree(md, ignore_errors=True)
-        shutil.rmtree(os.path.join(d, "jtmp"), ignore_errors=True)
+        shutil.rmtree(jt, ignore_errors=True)
         self.cov["tlc_cmds"].append("(cd %s && %s)  # %.1fs" % (os.path.relpath(d, ROOT), " ".join(cmd), time.time() - t0))
         keep = []
         with open(outp, errors="replace") as f:
